@@ -16,8 +16,8 @@ GEN = ['Chars', 'Units']
 OBLIGATIONS = ['PGA.Units.' + t for t in [
     'C10_tab_db_built', 'C10_tab_names', 'C10_tab_prefixes', 'C10_tab_units', 'C10_tab_collisions', 'C10_tab_gas_constant',
     'C10_tab_db_integral', 'C10_lookup_prefixed',
-    'C10_no_internal_outcome', 'C10_outcome_trichotomy', 'C10_malformed_rejected',
-    'C10_parse_render', 'C10_eval_render', 'C10_eval_render_live', 'C10_eval_render_full_false',
+    'C10_no_internal_outcome', 'C10_outcome_trichotomy', 'C10_malformed_rejected', 'C10_no_internal_outcome_text',
+    'C10_parse_render', 'C10_eval_render', 'C10_eval_render_live', 'C10_eval_text', 'C10_eval_render_full_false',
     'C10_eval_render_fractional_partial',
     'C10_in_units_ratio', 'C10_in_units_incompatible', 'C10_in_units_incompatible_integral',
     'C10_in_with_units_partial', 'C10_in_with_units_full_false', 'C10_from_to_SI', 'C10_to_from_SI',
